@@ -34,8 +34,8 @@ anything that is neither array nor list (AssertionError), refuses a value vector
 `timegrid_tmp.I[mask]` — which is `fixWindow` of `EAO.Model.Assemble` on the interval problem with the LOCAL steps.
 
 The interval problems WITHOUT window are inputs here (`IntervalIn.prob`: any asset class; for portfolios of the
-builders of `EAO.Model.Contract` they are what `setupPortfolio` of `EAO.Model.SplitBuild` gives on the interval grid,
-see `builderIntervals`), together with the original steps `tmp_I` and the points of the interval grid.
+builders of `EAO.Model.Contract` they are what `setupPortfolio` of `EAO.Model.SplitBuild` gives on the interval grid
+inside `setupInterval`), together with the original steps `tmp_I` and the points of the interval grid.
 -/
 namespace EAO
 
@@ -177,19 +177,14 @@ def FixI.valid (T : Nat) : FixI → Bool
   | .floats => false
   | .other => false
 
-/-! ### the interval problems of a portfolio of builders (`EAO.Model.SplitBuild`) as inputs -/
+/-- the local steps the sliced window names in an interval (`[]` where the slicing fails) -/
+def windowLocalD (T : Nat) (w : FixI) (iv : IntervalIn) : List Nat :=
+  match windowLocal T w iv with
+  | .ok loc => loc
+  | .error _ => []
 
-/-- one pass of the loop of `setupSplit` WITHOUT window, keeping the interval problem as `setupPortfolio` returns it -/
-def builderInterval (specs : List AssetSpec) (ref : Grid) (prices : Prices) (unitSec : Nat) (skip : List String)
-    (ab : Int × Int) : Except BuildError IntervalIn :=
-  let J := ref.interval ab.1 ab.2
-  if J.T = 0 then pure ⟨[], [], ⟨[], [], [], [], [], []⟩⟩ else do
-    let P ← setupPortfolio (specs.map fun a => a.onInterval ref ab) J (intervalPrices ref ab prices) unitSec skip
-    pure ⟨intervalSteps ref ab, J.pts, P⟩
-
-/-- the inputs of `fixSplit` for a portfolio of contracts and transports -/
-def builderIntervals (specs : List AssetSpec) (ref : Grid) (cuts : List Int) (prices : Prices) (unitSec : Nat)
-    (skip : List String) : Except BuildError (List IntervalIn) :=
-  (splitPairs cuts).mapM (builderInterval specs ref prices unitSec skip)
+/-- the interval problem a successful set-up returns for the contributing interval `p.2` reached with `len_res = p.1` -/
+def fixedInterval (T : Nat) (w : FixI) (x : List Rat) (p : Nat × IntervalIn) : Problem :=
+  relabelNodal p.2.steps (fixWindow p.2.prob (windowLocalD T w p.2) ((x.drop p.1).take p.2.prob.n))
 
 end EAO
